@@ -189,6 +189,15 @@ fn zero_one(d: &mut Drv) {
     // matrices (both layouts) and the quaternion: all elements zero
     macro_rules! zm { ($M:ty, $name:expr, $n:expr) => {{
         d.call("zero_one", || json!({"ty": $name, "how": "zero", "a": vec![0; $n]}), || json!(<$M as bytemuck::Zeroable>::zeroed().into_row_array().iter().map(|e| *e as i64).collect::<Vec<_>>()));
+        d.call("zero_one", || json!({"ty": $name, "how": "zero", "a": vec![0; $n]}), || json!(<$M as Zero>::zero().into_row_array().iter().map(|e| *e as i64).collect::<Vec<_>>()));
+        // is_zero = all elements zero: the zero matrix, one non-zero element anywhere (every other stored line is then
+        // entirely zero), one zero element in an otherwise non-zero matrix, a single non-zero line
+        for kind in 0..4 {
+            let mut a = vec![if kind == 2 { 5i32 } else { 0 }; $n];
+            let i = d.pick($n);
+            match kind { 0 => {}, 1 => a[i] = [1, -3][d.pick(2)], 2 => a[i] = 0, _ => { let side = if $n == 4 { 2 } else if $n == 9 { 3 } else { 4 }; let r = d.pick(side); for c in 0..side { a[r * side + c] = 7; } } }
+            d.call("zero_one", || json!({"ty": $name, "how": "is_zero", "a": a}), || { let mut it = a.iter().cloned(); let m = <$M>::zero().map(|_| it.next().unwrap()); json!([Zero::is_zero(&m) as i64]) });
+        }
     }} }
     zm!(vek::mat::repr_c::row_major::Mat2<i32>, "Mat2R", 4); zm!(vek::mat::repr_c::column_major::Mat2<i32>, "Mat2C", 4);
     zm!(vek::mat::repr_c::row_major::Mat3<i32>, "Mat3R", 9); zm!(vek::mat::repr_c::column_major::Mat3<i32>, "Mat3C", 9);
